@@ -28,10 +28,10 @@ def _norm_contract(kind):
         return f
 
     def ensures(res, error_abs, reference, atol, rtol):
-        size = error_abs.size
         if kind == "error_norm_scale_then_rms":
             scale = atol + rtol * jnp.abs(reference)
-            return [ge("nonneg", res), eq("rms_of_scaled_error", res * res * size, jnp.sum((error_abs / scale) ** 2))]
+            scaled = error_abs / scale  # broadcasts when the error is shared by all dimensions (isotropic model)
+            return [ge("nonneg", res), eq("rms_of_scaled_error", res * res * scaled.size, jnp.sum(scaled**2))]
         # rms first, then scale with the rms of the reference
         ra2 = jnp.sum(error_abs**2) / error_abs.size
         rr = jnp.sqrt(jnp.sum(reference**2)) / jnp.sqrt(reference.size)
@@ -39,9 +39,8 @@ def _norm_contract(kind):
 
     def instances(tier):
         out = []
-        for k, kr in [(1, 1), (2, 2), (3, 3)] + ([(1, 2), (4, 4)] if tier == "thorough" else []):
-            if kind == "error_norm_scale_then_rms" and k != kr:
-                continue
+        # (1, d): one error value shared by d dimensions with a d-dimensional reference (isotropic model)
+        for k, kr in [(1, 1), (2, 2), (3, 3), (1, 2), (1, 3)] + ([(4, 4), (1, 4)] if tier == "thorough" else []):
             def make(rng, k=k, kr=kr):
                 return (jnp.asarray(rng.uniform(0.1, 1.0, size=(k,))), jnp.asarray(rng.normal(size=(kr,))), jnp.asarray(rng.uniform(1e-3, 1e-1)), jnp.asarray(rng.uniform(1e-3, 1e-1))), {}
             out.append(Instance(f"size={k},ref={kr}", make, positive=lambda a, kw: [a[2], a[3]], nonneg=lambda a, kw: [a[0]], names=lambda a, kw: {id(a[0]): "err", id(a[1]): "ref", id(a[2]): "atol", id(a[3]): "rtol"}))
@@ -52,6 +51,33 @@ def _norm_contract(kind):
 
 
 norm_contracts = [_norm_contract("error_norm_scale_then_rms"), _norm_contract("error_norm_rms_then_scale")]
+
+
+def norm_agreement_contract(kind):
+    """C14: the isotropic model reports one error value for all d dimensions, the dense model d equal values;
+    both must be given the same norm (relational contract on the real norm, two calls)."""
+
+    def wrap(target):
+        def f(err, reference, atol, rtol):
+            fn = target()
+            return fn(err, reference, atol=atol, rtol=rtol), fn(jnp.broadcast_to(err, reference.shape), reference, atol=atol, rtol=rtol)
+
+        return f
+
+    def ensures(res, err, reference, atol, rtol):
+        shared, per_dim = res
+        return [ge("nonneg_shared", shared), ge("nonneg_per_dimension", per_dim), eq("one_shared_error_value_equals_d_equal_values", shared * shared, per_dim * per_dim)]
+
+    def instances(tier):
+        out = []
+        for d in (2, 3) + ((4,) if tier == "thorough" else ()):
+            def make(rng, d=d):
+                return (jnp.asarray(rng.uniform(0.1, 1.0, size=(1,))), jnp.asarray(rng.normal(size=(d,))), jnp.asarray(rng.uniform(1e-3, 1e-1)), jnp.asarray(rng.uniform(1e-3, 1e-1))), {}
+            out.append(Instance(f"d={d}", make, positive=lambda a, kw: [a[2], a[3]], nonneg=lambda a, kw: [a[0]], names=lambda a, kw: {id(a[0]): "err", id(a[1]): "ref", id(a[2]): "atol", id(a[3]): "rtol"}))
+        return out
+
+    return Contract(name=f"{MOD}:{kind}[shared_vs_per_dimension]", module=MOD, qualname=kind, wrap=wrap, ensures=ensures, instances=instances,
+                    doc="norm of one error value shared by d dimensions == norm of d equal error values (isotropic vs dense error estimates)")
 
 
 # --------------------------------------------------------------------------------------
@@ -87,13 +113,13 @@ def abstract_norm(error_abs, reference, atol, rtol):
 
 
 class ECfg(ivp.Cfg):
-    def __init__(self, layout, estimator="residual", relin=False, per_unit=False, idx=0, lin="ts0", q=1, d=1, order=1, calib="none", strategy="filter"):
-        super().__init__(layout, calib, strategy, lin, q=q, d=d, order=order)
+    def __init__(self, layout, estimator="residual", relin=False, per_unit=False, idx=0, lin="ts0", q=1, d=1, order=1, calib="none", strategy="filter", pytree=False):
+        super().__init__(layout, calib, strategy, lin, q=q, d=d, order=order, pytree=pytree)
         self.estimator, self.relin_err, self.per_unit, self.idx = estimator, relin, per_unit, idx
 
     @property
     def name(self):
-        return f"{self.layout},{self.strategy},{self.estimator},{'relin' if self.relin_err else 'cached'},per_unit={self.per_unit},idx={self.idx},{self.lin},q={self.q},d={self.d},order={self.order}"
+        return f"{self.layout},{self.strategy},{self.estimator},{'relin' if self.relin_err else 'cached'},per_unit={self.per_unit},idx={self.idx},{self.lin},q={self.q},d={self.d},order={self.order}" + (",pytree" if self.pytree else "")
 
 
 def estimator_contract(cfg: ECfg):
@@ -145,7 +171,10 @@ def estimator_contract(cfg: ECfg):
             sigma, cl_sigma = whitened_rms_spec(cfg, observed, "local_scale")
             cl += cl_sigma
             cl += [eq("innovation_mean", observed.mean_flat, L.mv(H, m0) + b), eq("innovation_cov", cov(L, observed), S0)]
-            err = jax.flatten_util.ravel_pytree(observed.rescale_cholesky(sigma)._std_batched())[0]
+            # same pytree structure as the linearisation the code uses (the std contract is memoised per output structure)
+            scaled = observed.rescale_cholesky(sigma)
+            scaled = type(scaled)(scaled.mean_flat, scaled.cholesky_flat, proposed.fun_evals.noise.tree_flatten)
+            err = jax.flatten_util.ravel_pytree(scaled._std_batched())[0]
             var = jnp.diagonal(S0, axis1=-2, axis2=-1)
             if L is G.IsoL:
                 var_flat = var  # one std per observed row (scalar per coefficient)
@@ -233,5 +262,12 @@ def configs(tier):
             ECfg(layout, "state", relin=False, per_unit=False, idx=0, lin="ts0", q=1, d=2),
             ECfg(layout, "state", relin=True, per_unit=True, idx=1, lin="ts1", q=2, d=1),
             ECfg(layout, "residual", relin=False, per_unit=False, lin="ts0", q=1, d=1, strategy="fixedpoint", calib="mle"),
+            # pytree-structured state ({"a": (1,), "b": (1,)}): same flat specification (C15)
+            ECfg(layout, "residual", relin=True, per_unit=False, lin="ts1", q=1, d=2, pytree=True),
+            ECfg(layout, "state", relin=False, per_unit=False, idx=1, lin="ts0", q=1, d=2, pytree=True),
         ]
     return out
+
+
+def pytree_configs():
+    return [c for c in configs("thorough") if c.pytree]
